@@ -31,7 +31,7 @@ RULE = ('one evaluation = one seeded run: a single-client sequence of 10-120 map
         'SHA-256 of program or event log')
 ASSUMPTIONS = ['Index.setdefault is checked as the documented get/add loop (insert attempts + final lookup), not as one indivisible step',
                'key alphabet avoids pairs that Python treats as equal but diskcache documents as distinct (True/1, 2**63/2.0**63)']
-PROBES = ('own_temporary_directory', 'lifecycle', 'from_fanout', 'from_django', 'lock_wait', 'file_backed_replace')
+PROBES = ('fifo_churn', 'own_temporary_directory', 'lifecycle', 'from_fanout', 'from_django', 'lock_wait', 'file_backed_replace')
 TECHNIQUE = 'deterministic simulation + differential testing against collections.OrderedDict; seeded schedules + linearizability (no miss tolerance) for concurrent use'
 LEVEL_TEXT = ('seeded exploration of mapping-call sequences with lifecycle events against OrderedDict, and of 2-3 client '
               'interleavings decided by a linearizability search in which a lookup of a continuously present key may never miss.')
@@ -112,6 +112,10 @@ def gen_case(seed, tier):
             op = {'op': 'clear'}
         elif r < 0.92:
             op = {'op': 'peekitem', 'last': rng.random() < 0.5}
+        elif r < 0.935:
+            # first-in-first-out churn: many insertions, each followed by the removal of the oldest item - the index stays small
+            # while the positions of its rows move far beyond one page of whatever the iteration pages by
+            op = {'op': 'churn', 'n': rng.choice((60, 130, 260))}
         else:
             op = {'op': rng.choice(('reopen', 'pickle', 'restart'))}
         prog.append(op)
@@ -219,6 +223,17 @@ def apply_both(ix, ref, op, world=None):
         return _norm(lambda: len(ix)), _norm(lambda: len(ref))
     if name == 'clear':
         return _norm(ix.clear), _norm(ref.clear)
+    if name == 'churn':
+        def run(target, wrap):
+            out = []
+            if not len(target):
+                target[wrap('churn-seed')] = 0
+            for i in range(op['n']):
+                target[wrap('churn-%d' % i)] = i
+                k, v = target.popitem(last=False)
+                out.append(fp(getattr(k, 'key', k)))
+            return out
+        return _norm(lambda: run(ix, lambda k: k)), _norm(lambda: run(ref, HKey))
     if name == 'eq':
         plain, wrapped = _other(ref, op['other'], 0, world)
         try:
